@@ -11,7 +11,7 @@ RUN_MODULE = "Spec.TTLMap Model.DecorSimple Run.C02"
 EXPLAIN = "explain"
 RULE = ("(simple) 1-25 calls of a function f(x, y=0) decorated with cache(ttl, condition) through the facade: argument tuples from a small "
         "alphabet in every call form, advances around ttl on a 1/16 s grid, scripted behaviour per execution in {fresh int, None, 0, '', [], "
-        "raise A, raise B, raise a subclass of A, raise CancelledError}, conditions {all (every spelling: None / 'all' / any / 'any' / typing.Any), not_none / skip_none, bool callable (which also checks that it is handed the call's own arguments and key), truthy non-bool callable, with_exceptions(A), only_exceptions(A)}, ttl "
+        "raise A, raise B, raise a subclass of A, raise CancelledError, return an exception object as the result}, conditions {all (every spelling: None / 'all' / any / 'any' / typing.Any), not_none / skip_none, bool callable (which also checks that it is handed the call's own arguments and key), truthy non-bool callable, with_exceptions(A), only_exceptions(A)}, ttl "
         "spelled as int / float / timedelta / '<n>s' or '1m' string / callable of the arguments / callable with result=; (iter) the same for "
         "cache.iterator over scripted async generators (items incl. falsy ones, optional raise at the end, optional virtual time passing "
         "between items); (ttl) ttl_to_seconds on component strings ('1d2h3m50s' style, spaces, upper case) and malformed strings. "
@@ -37,7 +37,7 @@ class ExcA1(ExcA):      # a proper subclass of the listed class: selected by wit
 
 EXC = {1: ExcA, 2: ExcB, 3: ExcA1, 4: asyncio.CancelledError}   # 4: not an Exception at all - never selected, never stored
 CONDS = ["all", "not_none", "truthy", "nonbool", "with_exc", "only_exc"]
-SCRIPT = ["fresh", "fresh", "fresh", None, 0, "", [], "raiseA", "raiseB", "raiseA1", "v", "cancel"]
+SCRIPT = ["fresh", "fresh", "fresh", None, 0, "", [], "raiseA", "raiseB", "raiseA1", "v", "cancel", "retexc"]
 ARGS = [(1, 0), (1, 5), (2, 0), ("a", 0)]
 
 
@@ -185,6 +185,7 @@ def run_impl(case):
                 if s == "raiseB": raise ExcB()
                 if s == "raiseA1": raise ExcA1()
                 if s == "cancel": raise asyncio.CancelledError()      # e.g. propagated from cancelled inner work
+                if s == "retexc": return ExcB("handed back as a value, not raised")      # e.g. a validator returning the error it found
                 return _pyval(s, i)
             for adv, ai, form in case["calls"]:
                 if adv: await asyncio.sleep(adv * TICK)
@@ -242,10 +243,12 @@ def _outcome(s, i):
     if s == "raiseB": return C("OExc", Z(2))
     if s == "raiseA1": return C("OExc", Z(3))
     if s == "cancel": return C("OExc", Z(4))
+    if s == "retexc": return C("OVal", C("VOpq", Z(2002)))
     return C("OVal", _val(_pyval(s, i)))
 
 
 def _val(v):
+    if v == "<ExcB>": return C("VOpq", Z(2002))      # an exception object received as an ordinary result
     if isinstance(v, list): return C("VZs", [Z(x) for x in v])
     return val_to_coq(v)
 
